@@ -104,6 +104,9 @@ func run(r *report.Run, shard, nshards int, replayFile string) {
 		r.Extra["tuples_"+a.Name] = float64(n)
 	}
 	if shard == 0 && only != "ids" {
+		// informational (see Assumptions): the constructor input of a plain compass
+		// deployment is not covered by the signing bytes.
+		r.Extra["info_UploadSmartContract_bytes_ignore_constructor_input"] = uscIgnoresConstructorInput(w.App.AppCodec())
 		n, d := checkPooled(r, acts)
 		r.Extra["cross_action_pooled_tuples"] = float64(n)
 		r.Extra["cross_action_pooled_distinct"] = float64(d)
@@ -331,11 +334,11 @@ func scalar[T any](name string, vals []T, show func(T) string) field {
 	return field{Name: name, N: len(vals), Show: func(i int) string { return show(vals[i]) }}
 }
 
-func showStr(s string) string    { return fmt.Sprintf("%q", s) }
-func showU64(u uint64) string    { return fmt.Sprintf("%d", u) }
-func showI64(u int64) string     { return fmt.Sprintf("%d", u) }
-func showBytes(b []byte) string  { return fmt.Sprintf("0x%x(%dB)", b, len(b)) }
-func showAddr(s string) string   { return s }
+func showStr(s string) string      { return fmt.Sprintf("%q", s) }
+func showU64(u uint64) string      { return fmt.Sprintf("%d", u) }
+func showI64(u int64) string       { return fmt.Sprintf("%d", u) }
+func showBytes(b []byte) string    { return fmt.Sprintf("0x%x(%dB)", b, len(b)) }
+func showAddr(s string) string     { return s }
 func showInt(i sdkmath.Int) string { return i.String() }
 
 // seqs lists every sequence over {0..k-1} with minLen <= length <= maxLen.
@@ -542,7 +545,7 @@ func actions(cdc codec.Codec, thorough bool) []action {
 	}
 	uscIDs := []uint64{1, 2, 256, 1 << 56, 0x6080 << 48, 1 << 63, math.MaxUint64, 0x0000000100000000}
 	acts = append(acts, action{
-		Name: "UploadSmartContract",
+		Name:   "UploadSmartContract",
 		Fields: []field{scalar("bytecode", uscCodes, showBytes), scalar("message_id", uscIDs, showU64)},
 		Eval: func(ix []int) ([]byte, error) {
 			m := baseMessage(world.CompassID, relayers[0])
@@ -613,6 +616,18 @@ func actions(cdc codec.Codec, thorough bool) []action {
 		},
 	})
 	return acts
+}
+
+func uscIgnoresConstructorInput(cdc codec.Codec) bool {
+	var hs [2][]byte
+	for i, in := range [][]byte{{1, 2, 3}, {4, 5, 6, 7}} {
+		m := baseMessage(world.CompassID, "0x0000000000000000000000000000000000000002")
+		m.Action = &evmtypes.Message_UploadSmartContract{UploadSmartContract: &evmtypes.UploadSmartContract{
+			Bytecode: []byte{0x60, 0x80}, Abi: "[]", ConstructorInput: in, Id: 9,
+		}}
+		hs[i], _ = turnstoneBytes(cdc, m, 1, 0)
+	}
+	return string(hs[0]) == string(hs[1])
 }
 
 // ===========================================================================
